@@ -50,6 +50,9 @@ def check(repo, col, tier):
     # wherever they are listed, and the padded solver layout must place every compartment by its own branch (shared with C01/C02)
     col.rule("R-C12-levels", "level bookkeeping, branch-point grouping and within-branch edge tables", 8)
     c01_solver._levels(repo, col, "R-C12-levels")
+    # forward Euler on a network of unbranched cells: every cell's edges must stay in that cell's row
+    col.rule("R-C12-explicit", "forward Euler vector field: one row per branch, neighbours within the branch", 4)
+    c01_solver._vectorfield(repo, col, "R-C12-explicit")
     from . import c01
     col.rule("R-C12-layout", "every compartment's row is the one its neighbours' couplings point to (padded layout)", 8)
     c01._layout(repo, col, "R-C12-layout")
